@@ -5,7 +5,7 @@ import types
 import enc
 import encdata as E
 from enc import call, tres
-from props import corpus, progen
+from props import corpus, linecodes, progen
 
 
 def work(ctx):
@@ -54,6 +54,10 @@ def work(ctx):
 
     for origin, k in corpus.code_objects(ctx.tier, rng):
         check(origin, k, False)
+    # line tables at the assembler's boundaries, on real code objects
+    for what, k in linecodes.boundary_codes(rng, ctx.quick):
+        ctx.count("boundary-line-tables")
+        check("linetab", k, False)
     # generated programs x compile mode x optimisation level
     for src, mode in progen.programs(ctx, 60 if ctx.quick else 1500):
         for opt in (0, 1, 2):
